@@ -238,7 +238,7 @@ func (d *DFA) SearchAtAnchored(cache *DFACache, haystack []byte, at int) int {
 	// Get ANCHORED start state (requires match to start exactly at 'at')
 	currentState := d.getStartState(cache, haystack, at, true)
 	if currentState == nil {
-		return d.nfaFallback(haystack, at)
+		return d.nfaFallback(cache, haystack, at)
 	}
 
 	lastMatch := -1
@@ -271,14 +271,14 @@ func (d *DFA) SearchAtAnchored(cache *DFACache, haystack []byte, at int) int {
 		case InvalidState:
 			currentState = cache.getState(sid)
 			if currentState == nil {
-				return d.nfaFallback(haystack, at)
+				return d.nfaFallback(cache, haystack, at)
 			}
 			nextState, err := d.determinize(cache, currentState, b)
 			if err != nil {
 				if isCacheCleared(err) {
 					currentState = d.getStartState(cache, haystack, pos, true)
 					if currentState == nil {
-						return d.nfaFallback(haystack, at)
+						return d.nfaFallback(cache, haystack, at)
 					}
 					sid = currentState.id
 					ft = cache.flatTrans
@@ -286,7 +286,7 @@ func (d *DFA) SearchAtAnchored(cache *DFACache, haystack []byte, at int) int {
 					pos--
 					continue
 				}
-				return d.nfaFallback(haystack, at)
+				return d.nfaFallback(cache, haystack, at)
 			}
 			if nextState == nil {
 				return lastMatch
@@ -363,7 +363,7 @@ func (d *DFA) searchFirstAt(cache *DFACache, haystack []byte, startPos int) int 
 
 	startState := d.getStartStateForUnanchored(cache, haystack, startPos)
 	if startState == nil {
-		return d.nfaFallback(haystack, startPos)
+		return d.nfaFallback(cache, haystack, startPos)
 	}
 
 	// With 1-byte match delay, start states are never match states.
@@ -449,7 +449,7 @@ func (d *DFA) searchFirstAt(cache *DFACache, haystack []byte, startPos int) int 
 				pos = candidate
 				newStart := d.getStartStateForUnanchored(cache, haystack, pos)
 				if newStart == nil {
-					return d.nfaFallback(haystack, startPos)
+					return d.nfaFallback(cache, haystack, startPos)
 				}
 				sid = newStart.id
 				ft = cache.flatTrans
@@ -479,11 +479,11 @@ func (d *DFA) searchFirstAt(cache *DFACache, haystack []byte, startPos int) int 
 		case InvalidState:
 			currentState := cache.getState(sid)
 			if currentState == nil {
-				return d.nfaFallback(haystack, startPos)
+				return d.nfaFallback(cache, haystack, startPos)
 			}
 			nextState, err := d.determinize(cache, currentState, haystack[pos])
 			if err != nil {
-				return d.nfaFallback(haystack, startPos)
+				return d.nfaFallback(cache, haystack, startPos)
 			}
 			if nextState == nil {
 				return lastMatch
@@ -573,7 +573,7 @@ func (d *DFA) searchEarliestMatch(cache *DFACache, haystack []byte, startPos int
 	currentState := d.getStartStateForUnanchored(cache, haystack, startPos)
 	if currentState == nil {
 		// Fallback to NFA using SearchAt to preserve absolute positions
-		start, end, matched := d.pikevm.SearchAt(haystack, startPos)
+		start, end, matched := d.fallbackVM(cache).SearchAt(haystack, startPos)
 		return matched && start >= 0 && end >= start
 	}
 
@@ -691,7 +691,7 @@ func (d *DFA) searchEarliestMatch(cache *DFACache, haystack []byte, startPos int
 					pos = candidate
 					newStart := d.getStartStateForUnanchored(cache, haystack, pos)
 					if newStart == nil {
-						start, end, matched := d.pikevm.SearchAt(haystack, startPos)
+						start, end, matched := d.fallbackVM(cache).SearchAt(haystack, startPos)
 						return matched && start >= 0 && end >= start
 					}
 					sid = newStart.id
@@ -720,7 +720,7 @@ func (d *DFA) searchEarliestMatch(cache *DFACache, haystack []byte, startPos int
 		// Try lazy acceleration detection if not yet checked
 		currentState = cache.getState(sid)
 		if currentState == nil {
-			start, end, matched := d.pikevm.SearchAt(haystack, startPos)
+			start, end, matched := d.fallbackVM(cache).SearchAt(haystack, startPos)
 			return matched && start >= 0 && end >= start
 		}
 		d.tryDetectAccelerationWithCache(currentState, cache)
@@ -761,7 +761,7 @@ func (d *DFA) searchEarliestMatch(cache *DFACache, haystack []byte, startPos int
 			// Determinize on demand
 			nextState, err := d.determinize(cache, currentState, b)
 			if err != nil {
-				start, end, matched := d.pikevm.SearchAt(haystack, startPos)
+				start, end, matched := d.fallbackVM(cache).SearchAt(haystack, startPos)
 				return matched && start >= 0 && end >= start
 			}
 			if nextState == nil {
@@ -803,7 +803,7 @@ func (d *DFA) searchEarliestMatch(cache *DFACache, haystack []byte, startPos int
 		pos = candidate
 		newStart := d.getStartStateForUnanchored(cache, haystack, pos)
 		if newStart == nil {
-			start, end, matched := d.pikevm.SearchAt(haystack, startPos)
+			start, end, matched := d.fallbackVM(cache).SearchAt(haystack, startPos)
 			return matched && start >= 0 && end >= start
 		}
 		sid = newStart.id
@@ -836,7 +836,7 @@ func (d *DFA) searchEarliestMatchAnchored(cache *DFACache, haystack []byte, star
 	currentState := d.getStartState(cache, haystack, startPos, true)
 	if currentState == nil {
 		// Fallback to NFA with anchored search
-		start, end, matched := d.pikevm.SearchAt(haystack, startPos)
+		start, end, matched := d.fallbackVM(cache).SearchAt(haystack, startPos)
 		// For anchored: match must start exactly at startPos
 		return matched && start == startPos && end >= start
 	}
@@ -871,7 +871,7 @@ func (d *DFA) searchEarliestMatchAnchored(cache *DFACache, haystack []byte, star
 		case InvalidState:
 			currentState = cache.getState(sid)
 			if currentState == nil {
-				start, end, matched := d.pikevm.SearchAt(haystack, startPos)
+				start, end, matched := d.fallbackVM(cache).SearchAt(haystack, startPos)
 				return matched && start == startPos && end >= start
 			}
 			nextState, err := d.determinize(cache, currentState, b)
@@ -879,7 +879,7 @@ func (d *DFA) searchEarliestMatchAnchored(cache *DFACache, haystack []byte, star
 				if isCacheCleared(err) {
 					currentState = d.getStartState(cache, haystack, pos, true)
 					if currentState == nil {
-						start, end, matched := d.pikevm.SearchAt(haystack, startPos)
+						start, end, matched := d.fallbackVM(cache).SearchAt(haystack, startPos)
 						return matched && start == startPos && end >= start
 					}
 					sid = currentState.id
@@ -888,7 +888,7 @@ func (d *DFA) searchEarliestMatchAnchored(cache *DFACache, haystack []byte, star
 					pos--
 					continue
 				}
-				start, end, matched := d.pikevm.SearchAt(haystack, startPos)
+				start, end, matched := d.fallbackVM(cache).SearchAt(haystack, startPos)
 				return matched && start == startPos && end >= start
 			}
 			if nextState == nil {
@@ -933,7 +933,7 @@ func (d *DFA) findWithPrefilterAt(cache *DFACache, haystack []byte, startAt int)
 	// Get start state based on look-behind context at candidate position
 	currentState := d.getStartStateForUnanchored(cache, haystack, pos)
 	if currentState == nil {
-		return d.nfaFallback(haystack, 0)
+		return d.nfaFallback(cache, haystack, 0)
 	}
 
 	// Track last match position for leftmost-longest semantics
@@ -955,7 +955,7 @@ func (d *DFA) findWithPrefilterAt(cache *DFACache, haystack []byte, startAt int)
 				pos = candidate
 				newStart := d.getStartStateForUnanchored(cache, haystack, pos)
 				if newStart == nil {
-					return d.nfaFallback(haystack, 0)
+					return d.nfaFallback(cache, haystack, 0)
 				}
 				sid = newStart.id
 				ft = cache.flatTrans
@@ -984,21 +984,21 @@ func (d *DFA) findWithPrefilterAt(cache *DFACache, haystack []byte, startAt int)
 		case InvalidState:
 			currentState = cache.getState(sid)
 			if currentState == nil {
-				return d.nfaFallback(haystack, 0)
+				return d.nfaFallback(cache, haystack, 0)
 			}
 			nextState, err := d.determinize(cache, currentState, haystack[pos])
 			if err != nil {
 				if isCacheCleared(err) {
 					newStart := d.getStartStateForUnanchored(cache, haystack, pos)
 					if newStart == nil {
-						return d.nfaFallback(haystack, 0)
+						return d.nfaFallback(cache, haystack, 0)
 					}
 					sid = newStart.id
 					ft = cache.flatTrans
 					ftLen = len(ft)
 					continue
 				}
-				return d.nfaFallback(haystack, 0)
+				return d.nfaFallback(cache, haystack, 0)
 			}
 			if nextState == nil {
 				// Dead state — prefilter skip
@@ -1013,7 +1013,7 @@ func (d *DFA) findWithPrefilterAt(cache *DFACache, haystack []byte, startAt int)
 				pos = candidate
 				newStart := d.getStartStateForUnanchored(cache, haystack, pos)
 				if newStart == nil {
-					return d.nfaFallback(haystack, 0)
+					return d.nfaFallback(cache, haystack, 0)
 				}
 				sid = newStart.id
 				ft = cache.flatTrans
@@ -1037,7 +1037,7 @@ func (d *DFA) findWithPrefilterAt(cache *DFACache, haystack []byte, startAt int)
 			pos = candidate
 			newStart := d.getStartStateForUnanchored(cache, haystack, pos)
 			if newStart == nil {
-				return d.nfaFallback(haystack, 0)
+				return d.nfaFallback(cache, haystack, 0)
 			}
 			sid = newStart.id
 			ft = cache.flatTrans
@@ -1112,7 +1112,7 @@ func (d *DFA) searchAt(cache *DFACache, haystack []byte, startPos int) int { //n
 	// Get appropriate start state based on look-behind context
 	currentState := d.getStartStateForUnanchored(cache, haystack, startPos)
 	if currentState == nil {
-		return d.nfaFallback(haystack, startPos)
+		return d.nfaFallback(cache, haystack, startPos)
 	}
 
 	// Track last match position for leftmost-longest semantics.
@@ -1217,7 +1217,7 @@ func (d *DFA) searchAt(cache *DFACache, haystack []byte, startPos int) int { //n
 					pos = candidate
 					newStart := d.getStartStateForUnanchored(cache, haystack, pos)
 					if newStart == nil {
-						return d.nfaFallback(haystack, startPos)
+						return d.nfaFallback(cache, haystack, startPos)
 					}
 					sid = newStart.id
 					ft = cache.flatTrans
@@ -1246,7 +1246,7 @@ func (d *DFA) searchAt(cache *DFACache, haystack []byte, startPos int) int { //n
 		// Resolve State for slow path (acceleration, word boundary, determinize).
 		currentState = cache.getState(sid)
 		if currentState == nil {
-			return d.nfaFallback(haystack, startPos)
+			return d.nfaFallback(cache, haystack, startPos)
 		}
 		d.tryDetectAccelerationWithCache(currentState, cache)
 
@@ -1279,7 +1279,7 @@ func (d *DFA) searchAt(cache *DFACache, haystack []byte, startPos int) int { //n
 		case InvalidState:
 			nextState, err := d.determinize(cache, currentState, b)
 			if err != nil {
-				return d.nfaFallback(haystack, startPos)
+				return d.nfaFallback(cache, haystack, startPos)
 			}
 			if nextState == nil {
 				return lastMatch
@@ -1618,12 +1618,29 @@ func (d *DFA) getStartStateForUnanchored(cache *DFACache, haystack []byte, pos i
 	return d.getStartState(cache, haystack, pos, false)
 }
 
+// fallbackVM returns the PikeVM that searches running on cache use for NFA
+// fallback. A PikeVM keeps per-search state, so it must not be shared between
+// goroutines: every cache (one per goroutine) lazily gets its own simulator
+// over the DFA's NFA instead of the DFA-wide d.pikevm, which concurrent
+// searches on one DFA would otherwise corrupt (data race, wrong results,
+// non-termination). d.pikevm remains the template for the match mode.
+func (d *DFA) fallbackVM(cache *DFACache) *nfa.PikeVM {
+	if cache == nil {
+		return d.pikevm
+	}
+	if cache.pikevm == nil {
+		cache.pikevm = nfa.NewPikeVM(d.nfa)
+	}
+	cache.pikevm.SetLongest(d.pikevm.IsLongest())
+	return cache.pikevm
+}
+
 // nfaFallback executes the NFA (PikeVM) when DFA gives up.
 // This ensures correctness even when cache is full or pattern is too complex.
-func (d *DFA) nfaFallback(haystack []byte, startPos int) int {
+func (d *DFA) nfaFallback(cache *DFACache, haystack []byte, startPos int) int {
 	// Search from startPos to end using SearchAt to preserve absolute positions
 	// This is critical for anchor handling (^ should only match at position 0)
-	_, end, matched := d.pikevm.SearchAt(haystack, startPos)
+	_, end, matched := d.fallbackVM(cache).SearchAt(haystack, startPos)
 	if !matched {
 		return -1
 	}
@@ -1642,7 +1659,7 @@ func (d *DFA) matchesEmpty(cache *DFACache) bool {
 	}
 
 	// Fall back to NFA for empty match check (handles word boundaries, etc.)
-	start, end, matched := d.pikevm.Search([]byte{})
+	start, end, matched := d.fallbackVM(cache).Search([]byte{})
 	return matched && start == 0 && end == 0
 }
 
@@ -1774,7 +1791,7 @@ func (d *DFA) SearchReverse(cache *DFACache, haystack []byte, start, end int) in
 	// Get start state for reverse search
 	currentState := d.getStartStateForReverse(cache, haystack, end)
 	if currentState == nil {
-		return d.nfaFallbackReverse(haystack, start, end)
+		return d.nfaFallbackReverse(cache, haystack, start, end)
 	}
 
 	lastMatch := -1
@@ -1868,21 +1885,21 @@ func (d *DFA) SearchReverse(cache *DFACache, haystack []byte, start, end int) in
 		case InvalidState:
 			currentState = cache.getState(sid)
 			if currentState == nil {
-				return d.nfaFallbackReverse(haystack, start, end)
+				return d.nfaFallbackReverse(cache, haystack, start, end)
 			}
 			nextState, err := d.determinize(cache, currentState, b)
 			if err != nil {
 				if isCacheCleared(err) {
 					currentState = d.getStartStateForReverse(cache, haystack, at+1)
 					if currentState == nil {
-						return d.nfaFallbackReverse(haystack, start, end)
+						return d.nfaFallbackReverse(cache, haystack, start, end)
 					}
 					sid = currentState.id
 					ft = cache.flatTrans
 					ftLen = len(ft)
 					continue
 				}
-				return d.nfaFallbackReverse(haystack, start, end)
+				return d.nfaFallbackReverse(cache, haystack, start, end)
 			}
 			if nextState == nil {
 				return lastMatch
@@ -1951,7 +1968,7 @@ func (d *DFA) SearchReverseLimited(cache *DFACache, haystack []byte, start, end,
 
 	currentState := d.getStartStateForReverse(cache, haystack, end)
 	if currentState == nil {
-		return d.nfaFallbackReverse(haystack, start, end)
+		return d.nfaFallbackReverse(cache, haystack, start, end)
 	}
 
 	lastMatch := -1
@@ -1984,14 +2001,14 @@ func (d *DFA) SearchReverseLimited(cache *DFACache, haystack []byte, start, end,
 		case InvalidState:
 			currentState = cache.getState(sid)
 			if currentState == nil {
-				return d.nfaFallbackReverse(haystack, start, end)
+				return d.nfaFallbackReverse(cache, haystack, start, end)
 			}
 			nextState, err := d.determinize(cache, currentState, b)
 			if err != nil {
 				if isCacheCleared(err) {
 					currentState = d.getStartStateForReverse(cache, haystack, at+1)
 					if currentState == nil {
-						return d.nfaFallbackReverse(haystack, start, end)
+						return d.nfaFallbackReverse(cache, haystack, start, end)
 					}
 					sid = currentState.id
 					ft = cache.flatTrans
@@ -1999,7 +2016,7 @@ func (d *DFA) SearchReverseLimited(cache *DFACache, haystack []byte, start, end,
 					at++ // Will be decremented by for-loop
 					continue
 				}
-				return d.nfaFallbackReverse(haystack, start, end)
+				return d.nfaFallbackReverse(cache, haystack, start, end)
 			}
 			if nextState == nil {
 				return lastMatch
@@ -2045,7 +2062,7 @@ func (d *DFA) IsMatchReverse(cache *DFACache, haystack []byte, start, end int) b
 
 	currentState := d.getStartStateForReverse(cache, haystack, end)
 	if currentState == nil {
-		_, _, matched := d.pikevm.Search(haystack[start:end])
+		_, _, matched := d.fallbackVM(cache).Search(haystack[start:end])
 		return matched
 	}
 
@@ -2073,7 +2090,7 @@ func (d *DFA) IsMatchReverse(cache *DFACache, haystack []byte, start, end int) b
 		case InvalidState:
 			currentState = cache.getState(sid)
 			if currentState == nil {
-				_, _, matched := d.pikevm.Search(haystack[start:end])
+				_, _, matched := d.fallbackVM(cache).Search(haystack[start:end])
 				return matched
 			}
 			nextState, err := d.determinize(cache, currentState, b)
@@ -2081,7 +2098,7 @@ func (d *DFA) IsMatchReverse(cache *DFACache, haystack []byte, start, end int) b
 				if isCacheCleared(err) {
 					currentState = d.getStartStateForReverse(cache, haystack, at+1)
 					if currentState == nil {
-						_, _, matched := d.pikevm.Search(haystack[start:end])
+						_, _, matched := d.fallbackVM(cache).Search(haystack[start:end])
 						return matched
 					}
 					sid = currentState.id
@@ -2090,7 +2107,7 @@ func (d *DFA) IsMatchReverse(cache *DFACache, haystack []byte, start, end int) b
 					at++ // Will be decremented by for-loop
 					continue
 				}
-				_, _, matched := d.pikevm.Search(haystack[start:end])
+				_, _, matched := d.fallbackVM(cache).Search(haystack[start:end])
 				return matched
 			}
 			if nextState == nil {
@@ -2158,9 +2175,9 @@ func (d *DFA) getStartStateForReverse(cache *DFACache, haystack []byte, end int)
 }
 
 // nfaFallbackReverse handles NFA fallback for reverse search.
-func (d *DFA) nfaFallbackReverse(haystack []byte, start, end int) int {
+func (d *DFA) nfaFallbackReverse(cache *DFACache, haystack []byte, start, end int) int {
 	// For reverse fallback, we need to search the region and find match start
-	matchStart, _, matched := d.pikevm.Search(haystack[start:end])
+	matchStart, _, matched := d.fallbackVM(cache).Search(haystack[start:end])
 	if !matched {
 		return -1
 	}
